@@ -38,6 +38,9 @@ var httpRespHeads = []string{
 	"HTTP/1.1 200 OK\r\nX-A: b\r\n folded\r\n\tmore\r\n\r\n", // folded header value
 	"HTTP/1.1 204 No Content\r\nServer: x\r\n\r\n",
 	"HTTP/1.1 200 OK\r\nX-A: b\n  \nX-C: d\n\n",
+	"HTTP/1.1 200 OK\nServer: x\n\r\n",     // LF lines, CRLF blank line
+	"HTTP/1.1 200 OK\r\nServer: x\r\n\n",   // CRLF lines, LF blank line
+	"HTTP/1.1 200 OK\r\nServer: x\n\r\n",
 }
 var httpReqHeads = []string{
 	"GET / HTTP/1.1\r\nHost: example.com\r\n\r\n",
@@ -45,6 +48,8 @@ var httpReqHeads = []string{
 	"GET /a HTTP/1.1\nHost: h\n\n",
 	"GET / HTTP/1.1\r\nHost: example.com\r\n \r\nX-C: d\r\n\r\n",
 	"GET / HTTP/1.1\r\nHost: example.com\r\nX-F: a\r\n  b\r\n\r\n",
+	"GET /m HTTP/1.1\nHost: h\n\r\n",
+	"GET /m HTTP/1.1\r\nHost: h\r\n\n",
 }
 
 // bigHead: an HTTP head that does not fit a 4096-byte read buffer (or sits right at its edge)
